@@ -44,6 +44,9 @@ type Faults struct {
 	// TearSibling: the process dies with the complete new contents sitting under this name beside the target and
 	// the target itself untouched: what a kill between "write temporary file" and "rename" leaves behind
 	TearSibling string `json:"tear_sibling,omitempty"`
+	// WriteErrAll: every write through the cache-write seam fails with this errno for the whole invocation and
+	// nothing is written: a cache file or directory that is not writable (read-only, owned by somebody else)
+	WriteErrAll string `json:"write_err_all,omitempty"`
 	// FsizeLimit (level L3 only): the child process runs with RLIMIT_FSIZE = this many bytes, so every file it
 	// grows beyond that gets a short write followed by EFBIG: a full disk or an exhausted quota, struck inside
 	// whatever write is in flight (cache file, spokfile under --fmt / --init, .gitignore). 0 = no limit.
@@ -157,6 +160,12 @@ func (h *hookState) writeFile(site, path string, data []byte, perm os.FileMode) 
 	h.nWrites++
 	h.points = append(h.points, PointRec{Site: site, Detail: filepath.Base(path), Len: len(data)})
 	h.mu.Unlock()
+	if h.f.WriteErrAll != "" {
+		h.mu.Lock()
+		h.fired = append(h.fired, "write-"+h.f.WriteErrAll+"-all")
+		h.mu.Unlock()
+		return true, &os.PathError{Op: "open", Path: path, Err: errnoByName[h.f.WriteErrAll]}
+	}
 	if h.f.TearWrite != w {
 		return false, nil
 	}
